@@ -47,9 +47,17 @@ class RequestContextManager:
         self.ctx_holder.restore_context(self.token)
         # don't attempt to restore these values on the top-level context as they don't exist
         if self.token.old_value != contextvars.Token.MISSING:
-            # propagate earliest request start and most recent request end to parent
-            self.ctx_holder.update_request_start(self.request_start)
-            self.ctx_holder.update_request_end(self.request_end)
+            # propagate earliest request start and most recent request end to parent. Nested contexts may run concurrently
+            # and finish in a different order than they have started (or may not have issued a request at all).
+            parent_ctx = self.ctx_holder.request_context.get()
+            request_start = self.request_start
+            if request_start is not None:
+                parent_start = parent_ctx.get("request_start")
+                parent_ctx["request_start"] = request_start if parent_start is None else min(parent_start, request_start)
+            request_end = self.request_end
+            if request_end is not None:
+                parent_end = parent_ctx.get("request_end")
+                parent_ctx["request_end"] = request_end if parent_end is None else max(parent_end, request_end)
         self.token = None
         return False
 
